@@ -191,6 +191,28 @@ def beancount_wildcards():
     return n, bad
 
 
+def parsed_wildcard_reuse():
+    """`*` expands to the CURRENT table's columns every time a parsed statement is executed (the expansion must not be
+    frozen into the parsed statement), at top level and inside a FROM subquery."""
+    bad = []
+    for text in ('SELECT * FROM #t', 'SELECT * FROM (SELECT * FROM #t)', 'SELECT * FROM (SELECT * FROM #t) WHERE 1 = 1'):
+        c1 = impl.connection({'t': impl.make_table('t', [('b', int), ('a', int)], [(1, 2)])})
+        c2 = impl.connection({'t': impl.make_table('t', [('a', int), ('s', str), ('b', int)], [(3, 'x', 4), (5, 'y', 6)])})
+        parsed = c1.parse(text)
+        for conn, want, width in ((c1, ['b', 'a'], 2), (c2, ['a', 's', 'b'], 3), (c1, ['b', 'a'], 2)):
+            try:
+                cur = conn.execute(parsed)
+                got = [d.name for d in cur.description]
+                rows = cur.fetchall()
+                if got != want or any(len(r) != width for r in rows):
+                    bad.append((f'parse once, execute on tables (b,a) then (a,s,b): {text}', [got, rows], want))
+                    break
+            except Exception as e:  # noqa: BLE001
+                bad.append((f'parse once, execute on tables (b,a) then (a,s,b): {text}', repr(e), want))
+                break
+    return bad
+
+
 def run(tier, rng):
     n = 1500 if tier == 'quick' else 20000
     cases = [gen_case(rng) for _ in range(n)]
@@ -241,6 +263,9 @@ def run(tier, rng):
     if d != ['a', 'a', 'a']:
         violations.append(core.Violation('naming', f'SELECT * FROM (SELECT a, a, b AS a FROM #t): description {d}, expected the three '
                                          'inner columns a, a, a', {'got': d}, signature='naming:star-duplicate-names'))
+    for what, got, want in parsed_wildcard_reuse():
+        violations.append(core.Violation('wildcard-reuse', f'{what}: description {got}, expected {want}',
+                                         {'what': what, 'got': got, 'want': want}, signature='wildcard-reuse:' + what))
     nb, wbad = beancount_wildcards()
     for name, got, want in wbad[:2]:
         violations.append(core.Violation('wildcard', f'SELECT * FROM #{name}: {got} but the table declares {want}',
